@@ -1528,7 +1528,9 @@ func (c *Compiler) compileAsyncExpr(expr *ast.AsyncExpr) error {
 	// Create a temporary compiler to compile the async body
 	bodyCompiler := &Compiler{
 		code:        make([]byte, 0),
-		symbolTable: c.symbolTable, // Share symbol table for variable access
+		// The block sees the enclosing variables but declares its own in a
+		// scope of its own, as the interpreter's child environment does.
+		symbolTable: c.symbolTable.EnterScope(BlockScope),
 		constants:   c.constants,
 	}
 
